@@ -67,6 +67,13 @@ def tasks(tier):
                        faults=[(site, idx, "RuntimeError")])
             for e in ENTRIES:
                 out.append({"family": "outcome-fault", "cfg": cfg, "entry": e, "bound": 0})
+    # a before_sleep hook that raises (for async entry points: a coroutine raising when awaited)
+    # is not one of the callbacks whose errors may leave execute()
+    for M, idx, e in itertools.product((2, 3), (0, 1, "always"), ENTRIES):
+        is_async = e.startswith("Async")
+        cfg = dict(M=M, alphabet=["ok", "x:T", "r:T"], max_unknown=None, before_sleep="call",
+                   bs_async=is_async, faults=[("before_sleep", idx, "RuntimeError")])
+        out.append({"family": "outcome-before-sleep-fault", "cfg": cfg, "entry": e, "bound": 0})
     # the abort arrives from the on_attempt_start hook (AbortRetryError raised before attempt k)
     for M, idx, e in itertools.product((2, 3), (0, 1, 2), ENTRIES + ENTRIES0):
         if e in ENTRIES0 and (M > 2 or idx > 0):
